@@ -81,10 +81,12 @@ Inductive case19 :=
 | KWeights (a : warray) (wbytes : option pbytes) (rback : ires warray)
 | KWeightsRead (bytes : pbytes) (r : ires warray)
 (* MEDIT: written by serialize_medit_binary / display_medit_ascii, read back by Mesh::from_reader
-   (format detected); [pt]: Display text of every coordinate, [rt]: every word of the file that
-   FromStr for f64 accepts, with its value — Rust std's float printing/parsing enters as data *)
+   (format detected).  Rust std's float printing/parsing enters as data, computed by the harness
+   from std alone, independently of mesh-io: [pt] = for every coordinate x, (x, format!("{}", x),
+   what that text parses to); [rt] = every word of the WRITTEN FILE that FromStr for f64 accepts,
+   with its value (used by the model's reader on the implementation's bytes) *)
 | KMeditBin (m : mesh) (wbytes : option pbytes) (rback : ires mesh)
-| KMeditAscii (m : mesh) (pt : list (N * pbytes)) (rt : list (pbytes * N)) (wbytes : option pbytes) (rback : ires mesh)
+| KMeditAscii (m : mesh) (pt : list (N * pbytes * option N)) (rt : list (pbytes * N)) (wbytes : option pbytes) (rback : ires mesh)
 (* reader 0 = parse_binary, 1 = parse_ascii, 2 = from_reader *)
 | KMeditRead (reader : N) (rt : list (pbytes * N)) (bytes : pbytes) (r : ires mesh)
 | KSniff (bytes : pbytes) (bin : bool) (asc : ires bool).
@@ -144,18 +146,30 @@ Definition eval19 (c : case19) : verdict :=
        prop_ok := if inq then is_ok_of mesh_eqb m rb else true;
        cls := (if inq then 50 else 60) + ires_class rb |}
   | KMeditAscii m pt rt wb rb =>
-    let pt' := map (fun e => (fst e, unpack (snd e))) pt in
+    let pt' := map (fun e => (fst (fst e), unpack (snd (fst e)))) pt in
     let rt' := map (fun e => (unpack (fst e), snd e)) rt in
-    (* inside the property: no Vertex block, and every coordinate's text parses back to the
-       same bits (Rust std guarantees it for every non-NaN value) *)
-    let floats_rt := forallb (fun e => match tab_parse rt' (snd e) with Some x => x =? fst e | None => false end) pt' in
-    let inq := negb (has_ty Vertex m) && floats_rt && nodes_below (2 ^ 64 - 1) m in
+    (* the hypothesis of medit_ascii_roundtrip, about std alone: the text std prints for the
+       coordinate is a word and std parses it back to the same bits (false for NaN payloads) *)
+    let floats_ok := forallb (fun e => word_okb (unpack (snd (fst e)))
+                                       && match snd e with Some y => y =? fst (fst e) | None => false end) pt in
+    let inq := negb (has_ty Vertex m) && floats_ok && nodes_below (2 ^ 64 - 1) m in
+    (* the coordinate tokens the implementation wrote, cut out by the model's parser and valued by
+       std, are the coordinates of the mesh *)
+    let written_coords_ok :=
+      match wb with
+      | Some b =>
+        match parse_ascii (tab_parse rt') (unpack b) with
+        | FOk m' => leqb N.eqb (m_coords m') (m_coords m)
+        | _ => false
+        end
+      | None => false
+      end in
     {| corr_ok := write_matches (serialize_ascii (tab_print pt') m) wb
                   && match wb with
                      | Some b => read_matches mesh_eqb (from_reader (tab_parse rt') (unpack b)) rb
                      | None => true
                      end;
-       prop_ok := if inq then is_ok_of mesh_eqb m rb else true;
+       prop_ok := if inq then is_ok_of mesh_eqb m rb && written_coords_ok else true;
        cls := (if inq then 70 else 80) + ires_class rb |}
   | KMeditRead which rt b r =>
     let rt' := map (fun e => (unpack (fst e), snd e)) rt in
